@@ -123,6 +123,13 @@ def centroidNum (a : Arr Int) : Int × Int × Int :=
    sumRange a.s0.toNat fun i => sumRange a.s1.toNat fun j => (j : Int) * a.get i j,
    a.total)
 
+/-- the same for any scalar (float images, antialiased shapes with values in [0, 1], ℚ weights): `util.centroid` normalises by the total
+and takes `np.dot` of the index grids with the image; these are the two numerators and the total -/
+def centroidNumK [Add K] [Mul K] [Zero K] [NatCast K] (a : Arr K) : K × K × K :=
+  (sumRange a.s0.toNat fun i => sumRange a.s1.toNat fun j => ((i : Nat) : K) * a.get i j,
+   sumRange a.s0.toNat fun i => sumRange a.s1.toNat fun j => ((j : Nat) : K) * a.get i j,
+   a.total)
+
 /-! ## `helper.mesh` and the drawn shapes (`shape.py`) -/
 
 /-- coordinate of index `i` on an axis of length `n` shifted by `s`: `arange(n) - floor(n/2) - s` — the REGENERATED `Gen.meshCoord` -/
